@@ -238,6 +238,127 @@ for _i in range(1, 21):
     rule(_p)(_make_params(_p))
 
 
+# ------------------------------------------------------------------------------------------------ fields and their names
+
+
+def _field(a: str) -> str:
+    import re
+
+    return re.sub(r"^_[A-Za-z0-9]+__", "", a).strip("_").lower()
+
+
+def field_name_mismatches(ctx: Ctx, files: set[str] | None):
+    """(a) `obj.a = b` where `b` is a plain name spelled like ANOTHER field stored on the same object in the same function while a
+    name spelled like `a` is in scope (the two were crossed over or the neighbour was picked);  (b) a property `a` that returns
+    `self.b` although the class has a field spelled `a`.  280 stores and 143 one-line getters on the pinned tree, none mismatched."""
+    M = ctx.M
+    for f in sorted(set(M.func_of_node.values()), key=lambda x: x.qual):
+        if isinstance(f.node, ast.Lambda) or "_compatibility" in f.mod.rel or (files is not None and f.mod.rel not in files):
+            continue
+        stores = []
+        for s in own_nodes(f.node):
+            if isinstance(s, (ast.Assign, ast.AnnAssign)) and s.value is not None:
+                for t in (s.targets if isinstance(s, ast.Assign) else [s.target]):
+                    v = s.value
+                    if isinstance(v, ast.Call) and "_Preconditions._check_not_null" in unparse(v.func) and v.args:
+                        v = v.args[0]  # self.__x = _Preconditions._check_not_null(x, "x")
+                    if isinstance(t, ast.Attribute) and isinstance(t.value, ast.Name) and isinstance(v, ast.Name):
+                        stores.append((t.value.id, _field(t.attr), v.id.strip("_").lower(), s))
+        attrs = {(o, a) for o, a, _, _ in stores}
+        scope = {x.arg.strip("_").lower() for x in f.node.args.args + f.node.args.kwonlyargs} | {x.id.strip("_").lower() for x in ast.walk(f.node) if isinstance(x, ast.Name) and isinstance(x.ctx, ast.Store)}
+        for o, a, v, s in stores:
+            yield f, s, (f"`{unparse(s)[:80]}` stores `{v}` in field `{a}` although `{o}` also has a field `{v}` and a value named `{a}` is in scope" if v != a and (o, v) in attrs and a in scope else None)
+        if f.kind == "property" and f.cls is not None:
+            body = [b for b in f.body if not (isinstance(b, ast.Expr) and isinstance(b.value, ast.Constant))]
+            if len(body) == 1 and isinstance(body[0], ast.Return) and isinstance(body[0].value, ast.Attribute) and isinstance(body[0].value.value, ast.Name) and body[0].value.value.id in ("self", "cls"):
+                fld, own = _field(body[0].value.attr), f.name.strip("_").lower()
+                bad = None
+                if fld != own:
+                    fields = {_field(k) for k in list(f.cls.assigns) + list(f.cls.annots)}
+                    for g in f.cls.methods.values():
+                        fields |= {_field(n.attr) for n in ast.walk(g.node) if isinstance(n, ast.Attribute) and isinstance(n.ctx, ast.Store) and isinstance(n.value, ast.Name) and n.value.id in ("self", "cls")}
+                    if own in fields:
+                        bad = f"property `{f.name}` returns the field `{body[0].value.attr}` although the class has a field `{own}`"
+                yield f, body[0], bad
+
+
+def _make_fields(prop: str):
+    def r_fields(ctx: Ctx) -> RuleResult:
+        rr = RuleResult(f"R{prop[1:]}.fields", "fields receive the value spelled like them, and one-line properties return the field spelled like them, whenever such a value / field exists (no neighbour picked by mistake)", min_instances=0)
+        if "fields_total" not in ctx.cache:
+            ctx.cache["fields_total"] = sum(1 for _ in field_name_mismatches(ctx, None))
+        if ctx.cache["fields_total"] < 300:
+            from ..model import AnalysisError
+
+            raise AnalysisError(f"field store / getter enumerator finds only {ctx.cache['fields_total']} sites in the whole package (423 confirmed)")
+        for f, s, bad in field_name_mismatches(ctx, anchor_files(prop)):
+            rr.inst(nontrivial=False)
+            if bad:
+                rr.fail(f.qual, bad, ctx.loc(f, s))
+            else:
+                rr.ok()
+        return rr
+
+    r_fields.__name__ = f"r{prop[1:]}_fields_named"
+    return r_fields
+
+
+for _i in range(1, 21):
+    _p = f"C{_i:02d}"
+    rule(_p)(_make_fields(_p))
+
+
+# ------------------------------------------------------------------------------------------------ errors are not swallowed
+
+# handlers that end without raising: (file, exception type) -> reason
+SWALLOW_REVIEWED = {
+    ("pyoda_time/text/_local_date_time_pattern_parser.py", "OverflowError"): "24:00 on the last day of the calendar: converted to the out-of-range failure result (parsing never raises)",
+    ("pyoda_time/_compatibility/_culture_info.py", ""): "unknown culture names fall back to the invariant culture (compatibility layer, not claimed)",
+}
+
+
+def swallowing_handlers(ctx: Ctx):
+    """`except` handlers no path of which raises, and `contextlib.suppress` blocks: an error converted into an ordinary value."""
+    M = ctx.M
+    for f in sorted(set(M.func_of_node.values()), key=lambda x: x.qual):
+        if isinstance(f.node, ast.Lambda):
+            continue
+        for t in own_nodes(f.node):
+            if isinstance(t, ast.Try):
+                for h in t.handlers:
+                    raises = any(isinstance(x, ast.Raise) for b in h.body for x in ast.walk(b))
+                    yield f, h, (unparse(h.type) if h.type is not None else ""), not raises
+            elif isinstance(t, ast.With):
+                for it in t.items:
+                    if isinstance(it.context_expr, ast.Call) and unparse(it.context_expr.func).endswith("suppress"):
+                        yield f, t, ",".join(unparse(a) for a in it.context_expr.args), True
+
+
+def _make_swallow(prop: str):
+    def r_swallow(ctx: Ctx) -> RuleResult:
+        rr = RuleResult(f"R{prop[1:]}.swallow", "no exception is converted into an ordinary value: every `except` handler re-raises (two reviewed conversions excepted), no contextlib.suppress", min_instances=1)
+        files = None if prop in ("C08", "C13", "C20") else anchor_files(prop)
+        rr.inst(nontrivial=False)
+        rr.ok({"scope": "whole package" if files is None else "anchor files"})
+        for f, h, ty, swallows in swallowing_handlers(ctx):
+            if files is not None and f.mod.rel not in files:
+                continue
+            rr.inst(nontrivial=False)
+            if swallows and (f.mod.rel, ty) not in SWALLOW_REVIEWED:
+                rr.fail(f.qual, f"`except {ty}` ends without raising: the error is turned into an ordinary result and the caller continues with it", ctx.loc(f, h))
+            else:
+                rr.ok()
+        return rr
+
+    r_swallow.__name__ = f"r{prop[1:]}_swallowed_errors"
+    return r_swallow
+
+
+for _i in range(1, 21):
+    _p = f"C{_i:02d}"
+    rule(_p)(_make_swallow(_p))
+
+
 # ------------------------------------------------------------------------------------------------ rules shared between properties
 
 # A change made to break one property often does so through a mechanism whose home is a neighbouring property; the home rule is then
